@@ -410,7 +410,7 @@ class Net:
             self.src = []
             for k, v in enumerate(w.src):
                 arr = np.array(v, float)
-                form = (form_seed + k) % 9
+                form = (form_seed + k) % 10
                 nm = f"S{k}"
                 if form == 0:      # function of time returning an array
                     m = spa.Transcode(lambda t, a=arr: a, output_vocab=v0)
@@ -430,13 +430,20 @@ class Net:
                     feeder = spa.Transcode(lambda t, a=arr: a / 2.0, output_vocab=v0)
                     m = spa.Transcode(lambda t, p: p + p, input_vocab=v0, output_vocab=v0)
                     feeder >> m
+                elif form == 9:    # function of the input pointer whose input vocabulary has no keys yet (an empty vocabulary is falsy)
+                    ve = spa.Vocabulary(w.d, algebra=w.A, pointer_gen=np.random.RandomState(7), strict=False)
+                    ident = spa.semantic_pointer.Identity(w.d, algebra=w.A) if w.al != "AVtb" else \
+                        spa.semantic_pointer.Identity(w.d, algebra=w.A, sidedness=spa.algebras.ElementSidedness.RIGHT)
+                    feeder = spa.Transcode(lambda t, a=arr: a, output_vocab=ve)
+                    m = spa.Transcode(lambda t, p, i_=ident: p * i_, input_vocab=ve, output_vocab=v0)   # pointer arithmetic on the input
+                    feeder >> m
                 else:              # a State module fed from a Transcode (a module that is not a Node)
                     feeder = spa.Transcode(lambda t, a=arr: a, output_vocab=v0)
                     m = spa.State(v0, subdimensions=1)
                     feeder >> m
                 self.forms.append(["function(t)->array", "SemanticPointer", "symbol", "expression string",
                                    "function(t)->SemanticPointer", "function(t)->string", "function(t)->symbol",
-                                   "function(t, pointer)", "State fed by Transcode"][form])
+                                   "function(t, pointer)", "State fed by Transcode", "function(t, pointer) with an empty input vocabulary"][form])
                 self.src.append(m)
             # a source given as symbol / expression string: the names themselves are also available as sources
             self.ssrc = []
